@@ -333,6 +333,66 @@ func concurrentConnects(name string, nclients int, reject []bool, bound int) *vx
 	return sc
 }
 
+// closedDuringChain: the connection ends (transport close, or the server's own connect timeout because the
+// middleware is slow) while an early middleware is still running, and a LATER middleware rejects (or every
+// one accepts). A socket whose chain did not run to the end with every middleware accepting must never be
+// admitted: no connection handler, not listed, no rooms - whatever happened to the connection meanwhile.
+func closedDuringChain(name, how string, laterRejects bool, bound int) *vx.Scenario {
+	sc := &vx.Scenario{Name: name, Bound: bound, Horizon: 3 * time.Minute}
+	sc.Body = func(e *vsched.Exec) func() vx.Result {
+		srv := sio.NewServer(nil)
+		nsp := srv.Of("/")
+		gate := make(chan struct{})
+		var v vsched.Var
+		var calls []int
+		connHandlers := 0
+		nsp.Use(func(s sio.ServerSocket, h *sio.Handshake) any {
+			v.Do(func() { calls = append(calls, 0) })
+			vsched.RecvStmt(gate) // slow middleware
+			return nil
+		})
+		nsp.Use(func(s sio.ServerSocket, h *sio.Handshake) any {
+			v.Do(func() { calls = append(calls, 1) })
+			if laterRejects {
+				return errors.New("denied")
+			}
+			return nil
+		})
+		nsp.OnConnection(func(s sio.ServerSocket) { v.Do(func() { connHandlers++ }) })
+		f := vrig.NewFakeEIO(srv, "conn")
+		vsched.GoQuiet("client", func() { f.In(`0{}`) })
+		vsched.GoQuiet("closer", func() {
+			vsched.Await(func() bool { return len(calls) >= 1 })
+			switch how {
+			case "transport-close":
+				f.TransportClose("transport close")
+				vsched.Close(gate)
+			case "connect-timeout":
+				// the server closes a connection that has not joined a namespace in time (45 s)
+				vsched.Sleep(50 * time.Second)
+				vsched.Close(gate)
+			}
+		})
+		return func() vx.Result {
+			var r vx.Result
+			_, sids, _ := adapter.VerifDump(nsp.Adapter())
+			r.Outcome = fmt.Sprintf("calls=%v handlers=%d listed=%d closed=%d", calls, connHandlers, len(nsp.Sockets()), f.Closed)
+			ctx := fmt.Sprintf("%s, later middleware rejects=%v: middlewares called %v, connection handlers %d, sockets listed %d, adapter sids %v, frames %v", how, laterRejects, calls, connHandlers, len(nsp.Sockets()), sids, f.Texts())
+			full := fmt.Sprint(calls) == "[0 1]"
+			if laterRejects || !full {
+				if connHandlers != 0 {
+					r.Violate("admission while the connection ends: connection handler ran although the chain did not end with every middleware accepting", "%s", ctx)
+				}
+			}
+			if len(nsp.Sockets()) != 0 || len(sids) != 0 {
+				r.Violate("admission while the connection ends: socket or rooms left on the server", "%s", ctx)
+			}
+			return r
+		}
+	}
+	return sc
+}
+
 // ---------------------------------------------------------------- event middleware
 
 type evCase struct {
@@ -615,6 +675,11 @@ func scenarios(tier string) []*vx.Scenario {
 		concurrentConnects("concurrent/2-clients-both-accepted", 2, []bool{false, false}, b),
 		concurrentConnects("concurrent/3-clients-middle-rejected", 3, []bool{false, true, false}, b-1),
 	}
+	for _, how := range []string{"transport-close", "connect-timeout"} {
+		for _, rej := range []bool{true, false} {
+			s = append(s, closedDuringChain(fmt.Sprintf("closed-during-chain/%s/later-rejects=%v", how, rej), how, rej, b-1))
+		}
+	}
 	for _, x := range s {
 		x.Shards = 4
 	}
@@ -626,7 +691,7 @@ func main() {
 		Property: "C12",
 		Level:    "model_checking",
 		Rule: "admission: every chain of <= 3 middlewares over {accept, join+accept, reject(error), reject(string), reject(struct), join+reject} plus chains of 4-5 with one rejection at each position, on '/' and '/custom', each run on the real server under the scheduler (default schedule, virtual time) and judged against the statement; " +
-			"concurrent connects of 2-3 clients with a blocking middleware explored to the deviation bound; event middleware: chains of <= 2 x 6 handler signatures, and chains of <= 2 over {accept, reject, reject-iff-first-argument-is-bad} x 7 sets of 1-3 On/Once handlers on the same event x 7 sequences of 1-3 accepted/rejected occurrences (also of an unrelated event). distinct_nontrivial = chains containing >= 1 middleware (admission) + event cases with a non-empty chain + deviating schedules",
+			"concurrent connects of 2-3 clients with a blocking middleware explored to the deviation bound; the connection ending (transport close / connect timeout) while an early middleware still runs and a later one rejects or accepts; event middleware: chains of <= 2 x 6 handler signatures, and chains of <= 2 over {accept, reject, reject-iff-first-argument-is-bad} x 7 sets of 1-3 On/Once handlers on the same event x 7 sequences of 1-3 accepted/rejected occurrences (also of an unrelated event). distinct_nontrivial = chains containing >= 1 middleware (admission) + event cases with a non-empty chain + deviating schedules",
 		Scenarios: scenarios,
 		Budget: func(tier string) time.Duration {
 			if tier == "thorough" {
